@@ -132,13 +132,25 @@ func Check(w *symex.World, plan *Plan, opt Options) int {
 	var nat map[string]NativeResult
 	natLog := ""
 	replayed, reproduced := 0, 0
-	if len(natJobs) > 0 && !opt.NoReplay {
-		// limit the batch: at most 400 replays (one per distinct label/case first)
+	perJob := opt.CrossVal
+	if perJob == 0 {
+		perJob = 2
+		if opt.Tier == "thorough" {
+			perJob = 4
+		}
+	}
+	xvRuns, xvJobs := xvPrepare(results, opt, perJob)
+	if len(natJobs)+len(xvJobs) > 0 && !opt.NoReplay {
 		var err error
-		nat, natLog, err = RunNative(w, opt, natJobs)
+		nat, natLog, err = RunNative(w, opt, append(append([]NativeJob{}, natJobs...), xvJobs...))
 		if err != nil {
 			incon = append(incon, "native replay: "+err.Error()+"\n"+tail(natLog, 30))
 		}
+	}
+	var xv xvOutcome
+	if nat != nil {
+		xv = xvEvaluate(w, results, xvRuns, nat, known)
+		incon = append(incon, xv.incon...)
 	}
 	violations := 0
 	knownPrinted := map[string]bool{}
@@ -185,9 +197,48 @@ func Check(w *symex.World, plan *Plan, opt Options) int {
 		fmt.Printf("VIOLATION property=%s replay=%s\n", plan.Property, p)
 		fmt.Printf("  harness=%s case=%s label=%s regions=%v\n  site=%s\n  %s\n", cd.jr.Job.Harness, compact(cd.jr.Job.Case), cd.f.Label, cd.f.Regions, cd.f.Site, cd.f.Detail)
 	}
+	for _, xvv := range xv.violations {
+		if xvv.known != "" {
+			if !knownPrinted[xvv.known] {
+				knownPrinted[xvv.known] = true
+				fmt.Printf("KNOWN-FINDING: property=%s %s [region %s; witness %s %s (native run)]\n", plan.Property, knownWhat[xvv.known], xvv.known, xvv.job.Harness, compact(xvv.job.Case))
+			}
+			continue
+		}
+		key := xvv.job.Harness + "|" + xvv.label + "|xv"
+		violations++
+		if seenViol[key] && vn >= 10 {
+			continue
+		}
+		seenViol[key] = true
+		vn++
+		nr := xvv.native
+		rf := ReplayFile{Property: plan.Property, Harness: xvv.job.Harness, Case: normCase(xvv.job.Case), Label: xvv.label, Site: "native cross-validation run (concrete assignment)", Asg: xvv.asg, Native: &nr}
+		p := filepath.Join(opt.VerifDir, "replays", plan.Property, fmt.Sprintf("%s-%d.json", opt.Tier, vn))
+		b, _ := json.MarshalIndent(rf, "", " ")
+		os.WriteFile(p, b, 0o644)
+		fmt.Printf("VIOLATION property=%s replay=%s\n", plan.Property, p)
+		fmt.Printf("  (native cross-validation run) harness=%s case=%s label=%s panic=%.200s\n", xvv.job.Harness, compact(xvv.job.Case), xvv.label, nr.Uncaught+nr.Panic)
+	}
 	if opt.NoReplay && len(cands) > 0 {
+		type grp struct {
+			n  int
+			ex string
+		}
+		groups := map[string]*grp{}
+		var order []string
 		for _, cd := range cands {
-			fmt.Printf("CANDIDATE (not replayed) %s label=%s known=%q regions=%v site=%s detail=%s model=%v\n", cd.jr.Job.Key(), cd.f.Label, cd.f.Known, cd.f.Regions, cd.f.Site, cd.f.Detail, cd.f.Model)
+			k := fmt.Sprintf("%s label=%s known=%q regions=%v", cd.jr.Job.Harness, cd.f.Label, cd.f.Known, cd.f.Regions)
+			g, ok := groups[k]
+			if !ok {
+				g = &grp{ex: fmt.Sprintf("case=%s detail=%.200s model=%.300s", compact(cd.jr.Job.Case), cd.f.Detail, fmt.Sprint(cd.f.Model))}
+				groups[k] = g
+				order = append(order, k)
+			}
+			g.n++
+		}
+		for _, k := range order {
+			fmt.Printf("CANDIDATE x%d %s\n    e.g. %s\n", groups[k].n, k, groups[k].ex)
 		}
 	}
 	for _, u := range unconfirmed {
@@ -205,32 +256,33 @@ func Check(w *symex.World, plan *Plan, opt Options) int {
 		"violations":  violations,
 		"assumptions": append(sortedKeys(assumptions), plan.Assumptions...),
 		"coverage": map[string]interface{}{
-			"states":                        paths,
-			"transitions":                   max1(queries),
-			"traces_validated_against_impl": reproduced,
-			"samples":                       samples,
-			"evaluations":                   len(jobs),
-			"distinct_nontrivial":           nontrivial,
-			"rule":                          "one evaluation = one structural case explored symbolically (all feasible paths); non-trivial = at least one assertion needed a solver query (not decided by constant folding); states = feasible paths; transitions = solver queries",
-			"exhaustive":                    plan.Exhaustive && len(incon) == 0,
-			"technique":                     "symbolic execution of gonnx's go/ssa form (regenerated from /repo on this run) + SMT (z3), gorgonia executed natively on shadow tensors",
-			"structural_cases":              len(jobs),
-			"paths":                         paths,
-			"forks":                         forks,
-			"interpreted_instructions":      steps,
-			"assertions_reached":            asserts,
+			"states":                         paths,
+			"transitions":                    max1(queries),
+			"traces_validated_against_impl":  reproduced + xv.agree,
+			"samples":                        samples,
+			"evaluations":                    len(jobs),
+			"distinct_nontrivial":            nontrivial,
+			"rule":                           "one evaluation = one structural case explored symbolically (all feasible paths); non-trivial = at least one assertion needed a solver query (not decided by constant folding); states = feasible paths; transitions = solver queries",
+			"exhaustive":                     plan.Exhaustive && len(incon) == 0,
+			"technique":                      "symbolic execution of gonnx's go/ssa form (regenerated from /repo on this run) + SMT (z3), gorgonia executed natively on shadow tensors",
+			"structural_cases":               len(jobs),
+			"paths":                          paths,
+			"forks":                          forks,
+			"interpreted_instructions":       steps,
+			"assertions_reached":             asserts,
 			"assertions_by_constant_folding": triv,
-			"assertions_by_solver":          assertsSMT,
-			"assertion_labels_reached":      reached,
-			"solver":                        map[string]interface{}{"backend": solverName(opt), "queries": queries, "sat": sat, "unsat": unsat, "unknown": unk, "time_s": solverT.Seconds(), "per_query_timeout_ms": opt.TimeoutMs},
-			"native_replays":                map[string]int{"run": replayed, "reproduced": reproduced},
-			"known_findings_printed":        sortedKeysB(knownPrinted),
-			"inconclusive":                  incon,
-			"bounds":                        plan.Bounds,
-			"outside_the_claim":             plan.Outside,
-			"functions_encoded":             w.FunctionsEncoded(funcs),
-			"stubs_and_native_calls":        stubs,
-			"explanation":                   plan.Explanation,
+			"assertions_by_solver":           assertsSMT,
+			"assertion_labels_reached":       reached,
+			"solver":                         map[string]interface{}{"backend": solverName(opt), "queries": queries, "sat": sat, "unsat": unsat, "unknown": unk, "time_s": solverT.Seconds(), "per_query_timeout_ms": opt.TimeoutMs},
+			"native_replays":                 map[string]int{"run": replayed, "reproduced": reproduced},
+			"cross_validation":               map[string]int{"native_runs_compared_with_concrete_interpretation": xv.runs, "agree": xv.agree},
+			"known_findings_printed":         sortedKeysB(knownPrinted),
+			"inconclusive":                   incon,
+			"bounds":                         plan.Bounds,
+			"outside_the_claim":              plan.Outside,
+			"functions_encoded":              w.FunctionsEncoded(funcs),
+			"stubs_and_native_calls":         stubs,
+			"explanation":                    plan.Explanation,
 		},
 	}
 	os.MkdirAll(filepath.Join(opt.VerifDir, "evidence"), 0o755)
